@@ -248,3 +248,12 @@ TEXT["C10"] = {
          "Proved observation: sample_random_generator is NOT total - on an exhausted all-zero stream the real loop never terminates (the drawn point has order dividing the cofactor); the sampler theorems are partial-correctness statements.  The all-zero 48-byte hash derives the identity as LQ-IBE identity point.",
  "technique": "Lean 4 proof (first-hit characterisation of the search loops; finite-field square-root theory; group law) + exact-stream differential correspondence",
 }
+TEXT["C03"] = {
+ "level": "Lean 4 theorems.  (a) Portable algorithms (shared with C02, generic in limb base and count): BigInt/FpBase add/subtract/double/multiply/square/Montgomery return, for all operands, limbs determined uniquely by the Nat-level contract, so the 64-bit-word and 32-bit-word builds agree bit for bit.  "
+          "(b) x86-64 ASSEMBLY, instruction level: translate/asm2lean.py regenerates, on every run, an instruction list for every exported routine of bigint.s / multiply.s / multiply_bmi2_adx.s (macro expansion, operand parsing; cross-checked instruction for instruction against GNU as + objdump; fails loudly on anything it does not understand); Impl/X86.lean is an executable machine model "
+          "(16 GPRs, CF/ZF/SF/OF with 'undefined' tracked, qword memory with read/write permissions, System V entry/return discipline).  For bigint_384_add/subtract/multiply2 and fpbase_384_add/subtract/multiply2 - for EVERY entry state satisfying the calling convention, any pointer values and aliasing res=a / res=b allowed - running the generated program returns properly (callee-saved registers, stack), "
+          "leaves exactly the Nat-level contract in res/rax (sum and carry; (a+b)%p, (a-b)%p, 2a%p for a,b<p, every control path incl. the top-word tie), hence the SAME limbs and carry as the portable model, and writes nothing else (frame condition); cpu_supports_bmi2_adx returns 1 iff cpuid reports BMI2 and ADX.  "
+          "(c) Multiplication, squaring, Montgomery reduction (baseline and BMI2/ADX families): same model, tied by the judge - for every asm op line the interpreter runs the regenerated program on the same operands and alias pattern and must reproduce the real routine's limbs and flag exactly (boundary operands: top-word ties, carry chains, T = p*R-1, top bits set).",
+ "note": "Not covered: AArch64 and ARMv6-M sources (cannot be executed here; Thumb-1 cannot even be assembled).  No theorem yet for the assembly multiply/square/Montgomery routines (model + exact differential tie only).  Trusted: the machine model's instruction semantics (validated against the host CPU on every run through the judge), asm2lean (cross-checked against the assembler), Lean kernel.",
+ "technique": "Lean 4 proof (symbolic execution of the regenerated instruction lists in a machine model; carry-chain arithmetic; uniqueness of canonical limbs) + exact differential execution of model and real routines",
+}
